@@ -292,3 +292,37 @@ impl Args {
         (((n as f64) * self.scale) as u64 / self.nshards.max(1)).max(1)
     }
 }
+
+
+/// A tracing subscriber that enables every callsite at every level and throws the events away: with it installed the
+/// arguments of every `debug!`/`trace!` statement in the code under test are evaluated, as they are for a user who
+/// runs with RUST_LOG=trace. Must be installed before the first decode (callsite interest is cached).
+pub struct EverythingEnabled;
+impl tracing::Subscriber for EverythingEnabled {
+    fn enabled(&self, _: &tracing::Metadata<'_>) -> bool {
+        true
+    }
+    fn new_span(&self, _: &tracing::span::Attributes<'_>) -> tracing::span::Id {
+        tracing::span::Id::from_u64(1)
+    }
+    fn record(&self, _: &tracing::span::Id, _: &tracing::span::Record<'_>) {}
+    fn record_follows_from(&self, _: &tracing::span::Id, _: &tracing::span::Id) {}
+    fn event(&self, e: &tracing::Event<'_>) {
+        // format the fields as a real subscriber would
+        struct V(usize);
+        impl tracing::field::Visit for V {
+            fn record_debug(&mut self, _: &tracing::field::Field, v: &dyn std::fmt::Debug) {
+                self.0 += format!("{v:?}").len();
+            }
+        }
+        let mut v = V(0);
+        e.record(&mut v);
+        std::hint::black_box(v.0);
+    }
+    fn enter(&self, _: &tracing::span::Id) {}
+    fn exit(&self, _: &tracing::span::Id) {}
+}
+
+pub fn enable_all_logging() -> bool {
+    tracing::subscriber::set_global_default(EverythingEnabled).is_ok()
+}
